@@ -42,6 +42,8 @@ static long stop_at = -1;                       // >=0: mutating call number sto
 static bool stopped = false;
 static long read_calls = 0;
 static uint64_t frng = 0;
+static long rt_short_read = -1, rt_eio_in = -1;   // set by the plan step "fsopt"
+void files_set_read_faults(long short_read, long eio_in) { if (short_read >= -1) rt_short_read = short_read; rt_eio_in = eio_in; }
 
 static std::string norm(const char *p) {
   std::string s = p ? p : "";
@@ -75,7 +77,7 @@ void files_load_state(const std::string &path) {
     i = j + 1;
   }
 }
-void files_reset() { fdpath.clear(); cookie_fd.clear(); mtimes.clear(); mut_calls = 0; stop_at = -1; stopped = false; read_calls = 0; }
+void files_reset() { rt_short_read = -1; rt_eio_in = -1; fdpath.clear(); cookie_fd.clear(); mtimes.clear(); mut_calls = 0; stop_at = -1; stopped = false; read_calls = 0; }
 
 // returns true if this mutating call must fail (the disk has stopped)
 static bool mutating(const char *op, const char *path) {
@@ -120,7 +122,8 @@ ssize_t files_read(int fd, void *buf, size_t n) {
   read_calls++;
   long eio_at = S.plan.optl("fs_read_eio_at", -1);
   if (eio_at >= 0 && read_calls == eio_at + 1) { S.stats["fs_read_eio"]++; ev("fs_fault read_eio %s", it->second.c_str()); errno = EIO; return -1; }
-  long sr = S.plan.optl("fs_short_read", 0);
+  if (rt_eio_in >= 0 && rt_eio_in-- == 0) { rt_eio_in = -1; S.stats["fs_read_eio"]++; ev("fs_fault read_eio %s", it->second.c_str()); errno = EIO; return -1; }
+  long sr = rt_short_read >= 0 ? rt_short_read : S.plan.optl("fs_short_read", 0);
   if (sr && n > 1) {
     frng = frng * 6364136223846793005ULL + 1442695040888963407ULL + (uint64_t)sr;
     size_t k = 1 + (size_t)((frng >> 33) % (sr == 1 ? 7 : 4096));
